@@ -6,6 +6,7 @@ import (
 	"fmt"
 	"math"
 	"net/url"
+	"regexp"
 	"strings"
 	"time"
 
@@ -252,6 +253,20 @@ func Preds(seed uint64, n int) *Out {
 					x.Match(eng.MatchRegex)
 				}
 			}, s))
+		}
+		// Match is regexp.MatchString for whatever expression the user gives: anchored or not, with a
+		// literal prefix or not, case-insensitive, alternations, empty
+		for _, re := range []string{`id-[0-9]+`, `ab[0-9]`, `^ab`, `b$`, `(?i)ab1`, `[0-9]b`, `a|b1`, ``, `^$`, `é+`, `a.c`, `(?s)a.c`, `\bab\b`, `^(?:ab)+$`} {
+			rx := regexp.MustCompile(re)
+			for _, s := range []string{"", "ab1", "aab1", "order id-42", "id-42", "id-", "xab", "ab", "b", "AB1", "9b", "a\nc", "abc", "éé", "x é", "ab ab", "abab", "1b1"} {
+				add("str.match", "(BOracle "+coqBoolT(rx.MatchString(s))+")", neg, dstr(s), passStr(func(x *z.StringSchema[string]) {
+					if neg {
+						wrap(x).Match(rx)
+					} else {
+						x.Match(rx)
+					}
+				}, s))
+			}
 		}
 		for _, l := range [][]string{{}, {"a"}, {"a", "b"}, {"", "x"}, {"é", "e"}, {"ab", "abc"}} {
 			var xs []string
